@@ -48,6 +48,8 @@ class Model(LogicType.Model[Meta.values]):
 
     def finish(self):
         self._check_not_finished()
+        # Enforce access first, since it may introduce a new world.
+        self.R.enforce()
         self._complete_frames()
         for w, frame in self.frames.items():
             for pred in deque(frame.predicates):
